@@ -291,6 +291,7 @@ impl ShardCtx {
             failure_persistence: None,
             max_shrink_iters: 3000,
             max_global_rejects: 1 << 20,
+            max_local_rejects: 1 << 30,
             ..Config::default()
         };
         let mut runner = TestRunner::new(cfg);
